@@ -32,9 +32,11 @@ func c02Alphabet(quick bool) []SeqOp {
 		op(0, U(0, 1, 3)),
 		op(0, hapi.Cmd{Type: 2, Key: 1, Id: 3, Flag: 0x01}),
 		op(1, hapi.Cmd{Type: 2, Key: 1, Id: 3, Flag: 0x01, Rcount: 1}),
-		op(0, L(0, 1, 1, 0, 0, 0, 2)),               // expiry 0: success without a hold
-		op(1, withTF(L(0, 1, 2, 3, 5, 0, 7), 0x10)), // priority-flagged: Rcount is the priority, never re-entrant
-		op(1, L(0, 1, 1, 0, 5, 0, 2)),               // another connection re-locks LockId 1: it then sets the hold's terms
+		op(0, hapi.Cmd{Type: 2, Key: 1, Id: 3, Flag: 0x03}), // unlock-first AND cancel-wait by a stranger: unlock-first decides
+		op(1, hapi.Cmd{Type: 2, Key: 1, Id: 2, Flag: 0x03}), // ... bearing a LockId that may be queued
+		op(0, L(0, 1, 1, 0, 0, 0, 2)),                       // expiry 0: success without a hold
+		op(1, withTF(L(0, 1, 2, 3, 5, 0, 7), 0x10)),         // priority-flagged: Rcount is the priority, never re-entrant
+		op(1, L(0, 1, 1, 0, 5, 0, 2)),                       // another connection re-locks LockId 1: it then sets the hold's terms
 		tick(1*sec), tick(4*sec),
 	)
 	if !quick {
